@@ -264,6 +264,25 @@ def sites_check(ctx):
                                   reviewed=sum(1 for s_ in sites if "reviewed" in repr(s_[4])))
     ctx.obligation("sites:every-path-site-of-the-storage-has-a-confined-provenance", not bad and not err,
                    err or "\n".join(bad[:20]))
+    # the application side: which string reaches which storage entry point (readable account of Gen_c06_app_sites_ok)
+    abad, aerr = [], None
+    try:
+        acalls, asites = t_c06sites.app_table(core.REPO)
+    except Exception as e:
+        acalls, asites, aerr = [], [], "%s: %s" % (type(e).__name__, e)
+    for f, fn, sink, line, t in asites:
+        ctx.count("appsites:%s" % sink)
+        ctx.case(("appsite", f, fn, sink, line), nontrivial=True)
+        w = _has_unknown(t)
+        if w and not sink.endswith(":token"):
+            abad.append("app/%s:%d %s %s: %s" % (f, line, fn, sink, w))
+    for f, x, t in acalls:
+        w = _has_unknown(t)
+        if w:
+            abad.append("app: argument %s of a call of %s: %s" % (x, f, w))
+    ctx.extra["c06_app_sites"] = dict(sites=len(asites), call_entries=len(acalls), unrouted=abad[:20], error=aerr)
+    ctx.obligation("sites:every-string-handed-to-a-storage-entry-point-is-routed-through-sanitize_path", not abad and not aerr,
+                   aerr or "\n".join(abad[:20]))
     # failing-input search at the storage API (public methods called directly with hostile strings)
     base = tempfile.mkdtemp(prefix="rv-c06p-")
     try:
